@@ -179,8 +179,39 @@ PTables ==
 PrattTemplates ==
   {<<"pratt", PAtom, t, k>> : t \in PTables, k \in {"vec", "tuple"}}
   \cup {<<"then", <<"pratt", PAtom, t, "vec">>, RestCap>> : t \in PTables}
-Templates(fam) == CASE fam = "pratt" -> PrattTemplates [] fam = "rec" -> RecTemplates [] fam = "lrec" -> LRecTemplates [] fam = "repT" -> RepTemplates
-TemplateFams == {"rec", "lrec", "repT", "pratt"}
+(* one memoized parser VALUE used twice (C11): the second use at the same position must behave *)
+(* like the first; nullable memoized parsers; a memoized failure hit again after a different    *)
+(* alternative failed at the same position                                                      *)
+Var1 == <<"var", 1>>
+MemoDefs == {<<"memo", x>> : x \in {J("a"), <<"ornot", J("a")>>, JJ("a", "b"), <<"collect", <<"rep", J("a"), 0, Inf>>, "vec">>,
+                                      <<"trymap", <<"any">>, "nfa">>, <<"or", JJ("a", "b"), J("a")>>}}
+MemoBodies == { <<"or", <<"then", Var1, J("a")>>, <<"then", Var1, J("b")>>>>,
+                <<"or", <<"then", Var1, J("b")>>, <<"or", J("b"), Var1>>>>,
+                <<"then", <<"ornot", <<"then", Var1, J("b")>>>>, Var1>>,
+                <<"or", <<"then", J("a"), Var1>>, <<"then", Var1, <<"then", Var1, J("b")>>>>>>,
+                <<"collect", <<"rep", <<"or", <<"then", Var1, J("b")>>, J("b")>>, 0, Inf>>, "vec">> }
+MemoTemplates == {<<"let", d, b>> : d \in MemoDefs, b \in MemoBodies}
+(* recovery inside recovery (C08): the inner parser itself emits errors *)
+RInner == {<<"via", J("b")>>, <<"skipuntil", <<"any">>, J("b")>>, <<"retry", <<"any">>, J("b")>>}
+ROuter == {<<"via", J("a")>>, <<"skipuntil", <<"any">>, <<"end">>>>, <<"skipuntil", <<"any">>, J("a")>>,
+           <<"retry", <<"any">>, <<"end">>>>, <<"retry", J("b"), <<"end">>>>}
+RcvTemplates ==
+  {<<"recover", <<"theni", <<"recover", J("a"), i>>, J("!")>>, o>> : i \in RInner, o \in ROuter}
+  \cup {<<"collect", <<"rep", <<"recover", <<"theni", <<"recover", J("a"), i>>, J("!")>>, o>>, 0, Inf>>, "vec">> :
+           i \in RInner, o \in {<<"retry", <<"any">>, <<"end">>>>, <<"skipuntil", <<"any">>, J("!")>>}}
+  \cup {<<"or", <<"then", J("a"), <<"then", J("b"), J("!")>>>>, <<"recover", J("b"), o>>>> : o \in ROuter}
+(* decorations around parsers that succeed while leaving a pending error behind, followed by  *)
+(* a later failure; an earlier alternative that failed further ahead (C17)                     *)
+LInner == {<<"then", J("a"), <<"ornot", J("b")>>>>, <<"then", J("a"), <<"or", J("b"), J("c")>>>>,
+           <<"collect", <<"rep", J("a"), 0, Inf>>, "vec">>, J("a"), <<"then", J("a"), <<"validate", <<"any">>, "1", "F">>>>}
+LDecor(x) == {<<"label", x, "L", FALSE>>, <<"label", x, "L", TRUE>>, <<"maperr", x, "tag">>, <<"maperr", x, "id">>,
+              <<"label", <<"label", x, "M", TRUE>>, "L", TRUE>>}
+LblTemplates ==
+  UNION {{<<"then", d, fo>> : d \in LDecor(x), fo \in {J("c"), J("b"), <<"then", J("b"), J("c")>>}} : x \in LInner}
+  \cup UNION {{<<"or", <<"then", J("a"), <<"then", J("b"), J("c")>>>>, <<"then", d, J("c")>>>> : d \in LDecor(x)} : x \in LInner}
+Templates(fam) == CASE fam = "memoT" -> MemoTemplates [] fam = "rcvT" -> RcvTemplates [] fam = "lblT" -> LblTemplates
+                    [] fam = "pratt" -> PrattTemplates [] fam = "rec" -> RecTemplates [] fam = "lrec" -> LRecTemplates [] fam = "repT" -> RepTemplates
+TemplateFams == {"rec", "lrec", "repT", "pratt", "memoT", "rcvT", "lblT"}
 
 Grammars == IF Fam \in TemplateFams THEN Templates(Fam)
             ELSE {g \in UNION {GSz(Fam, n) : n \in 1..MaxSize} : WF(g)}
